@@ -145,7 +145,21 @@ def r3(run):
         for bi, si, st in b.stmt_points():
             if st["k"] == "assign" and "agg" in st["rv"] and st["rv"].get("adt") == C.TTL and st["rv"].get("variant") == "Head" and bi in b.live_blocks():
                 sites.append((b, bi, st))
-    run.exact("TTL::Head construction sites outside derives", len(sites), 1, detail=[s[2]["sp"] for s in sites])
+    run.floor("TTL::Head construction sites outside derives", len(sites), 1)
+    # the variant constructor used as a function value (`.map(TTL::Head)`) builds a Head from whatever flows in: no `n >= 1` test
+    # can stand between the number and the value
+    for b in run.facts.all_bodies():
+        if b.def_ in derived:
+            continue
+        for c in b.calls():
+            if c.bb not in b.live_blocks():
+                continue
+            as_value = [a for a in c.args if "const" in a and str(a["const"].get("s", "")).endswith("TTL::Head") and "TTL::Head" in c.fnx]
+            direct = c.fn.endswith("ttl::TTL::Head")
+            if as_value or direct:
+                run.ob("%s|Head-constructor-as-function" % run.facts.enclosing_fn(b), False, c.sp,
+                       "TTL::Head is built through the bare constructor function (%s): the count is not checked against 0 on the way" % c.fn.split("::")[-1],
+                       reason="head-zero-accepted")
     for (b, bi, st) in sites:
         run.touch(b)
         run.ob("%s|is-parse_ttl" % b.def_, b.def_ == "xs::store::ttl::parse_ttl", st["sp"], "TTL::Head is built in parse_ttl (test-pinned): %s" % b.def_)
